@@ -879,6 +879,26 @@ def _nc_withheld(owner):
 
 N(ALL, NC, '20a', 'includes', _nc_withheld('taxpayer'), 'D-400 line 20a: Your North Carolina income tax withheld (Form(s) W-2 box 17, state NC)', cmp='ge')
 N(ALL, NC, '20b', 'includes', _nc_withheld('spouse'), "D-400 line 20b: Spouse's North Carolina income tax withheld (Form(s) W-2 box 17, state NC)", cmp='ge')
+def _nc_withheld_all(c):
+    """all North Carolina income tax withheld on the statements present in the solution, whoever they belong to"""
+    tot = 0.0
+    pairs = {'w-2': [('box_15', 'box_17')], '1099-g': [('box_10a_1', 'box_11_1'), ('box_10a_2', 'box_11_2')],
+             '1099-int': [('box_15_1', 'box_17_1'), ('box_15_2', 'box_17_2')],
+             '1099-div': [('box_14_1', 'box_16_1'), ('box_14_2', 'box_16_2')],
+             '1099-r': [('box_14_1_state', 'box_14_1'), ('box_14_2_state', 'box_14_2')]}
+    for form, cols in pairs.items():
+        for sec in c.instances(form):
+            kv = c.sol[sec]
+            for st, amt in cols:
+                if kv.get(st) == 'NC' and kv.get(amt) not in (None, ''):
+                    tot += float(kv[amt])
+    return tot
+
+
+# every statement belongs to the taxpayer, the spouse or both, so lines 20a + 20b carry all the N.C. tax withheld on the
+# statements of the return (W-2 box 17, 1099-G box 11, 1099-INT box 17, 1099-DIV box 16, 1099-R box 14, state NC)
+N(ALL, NC, '20b', 'conservation', lambda c: _nc_withheld_all(c) - c.L('20a'),
+  'D-400 lines 20a + 20b: North Carolina income tax withheld, from all Forms W-2 and 1099 showing N.C. tax withheld', tol=1.01)
 N(ALL, NC, '23', 'sum', SUM('20a', '20b', '21a', '21b', '21c', '21d', '22'), 'D-400 line 23: Add Lines 20a through 22')
 N(ALL, NC, '25', 'difference', DIFF('23', '24'), 'D-400 line 25: Subtract Line 24 from Line 23')
 N(ALL, NC, '26a', 'difference', lambda c: (c.L('19') - c.L('25')) if c.L('19') > c.L('25') else 0.0,
